@@ -85,12 +85,44 @@ _RANGE_CACHE = {}   # (ast id, ranges) -> (term kept alive, formula)
 _EQ_CACHE = {}
 
 
+def _domain(c):
+    """the alphabet a fresh character variable was constrained to on the current path (None if unknown)"""
+    en = core._CUR[0]
+    if en is None:
+        return None
+    return en._dom.get(c.get_id())
+
+
+def _subset(dom, ranges):
+    return all(any(lo >= a and hi <= b for a, b in ranges) for lo, hi in dom)
+
+
+def _disjoint(dom, ranges):
+    return all(hi < a or lo > b for lo, hi in dom for a, b in ranges)
+
+
 def in_ranges(c, ranges):
     """formula-or-bool: code point c lies in one of the ranges"""
     if isinstance(c, int):
         return any(lo <= c <= hi for lo, hi in ranges)
     if not ranges:
         return False
+    dom = _domain(c)
+    if dom is not None:
+        # interval pre-check against the variable's own alphabet constraint (already asserted in the solver): decides most
+        # character-class tests on structured tokens without a solver call
+        if _subset(dom, ranges):
+            return True
+        if _disjoint(dom, ranges):
+            return False
+        # only the part of the class that the variable can reach matters: much smaller formulas
+        cut = []
+        for a, b in ranges:
+            for lo, hi in dom:
+                x, y = max(a, lo), min(b, hi)
+                if x <= y:
+                    cut.append((x, y))
+        ranges = tuple(sorted(set(cut)))
     key = (c.get_id(), tuple(ranges))
     hit = _RANGE_CACHE.get(key)
     if hit is not None:
@@ -109,12 +141,18 @@ def cp_pred(c, name):
 def cp_map(c, name):
     if isinstance(c, int):
         return ord(getattr(chr(c), name)())
-    key = (c.get_id(), "map", name)
+    table = map_table(name)
+    dom = _domain(c)
+    if dom is not None:
+        table = [(max(lo, a), min(hi, b), d) for lo, hi, d in table for a, b in dom if max(lo, a) <= min(hi, b)]
+        if not table:
+            return c          # the map is the identity on everything this variable can be
+    key = (c.get_id(), "map", name, tuple(table) if dom is not None else None)
     hit = _EQ_CACHE.get(key)
     if hit is not None:
         return hit[1]
     e = c
-    for lo, hi, d in map_table(name):
+    for lo, hi, d in table:
         e = z3.If(z3.And(c >= K(lo), c <= K(hi)), c + K(d), e)
     _EQ_CACHE[key] = (c, e)
     return e
@@ -174,6 +212,12 @@ def ceq(a, b):
     if ia:
         a, b, ib = b, a, True
     if ib:
+        dom = _domain(a)
+        if dom is not None:
+            if not any(lo <= b <= hi for lo, hi in dom):
+                return False
+            if len(dom) == 1 and dom[0] == (b, b):
+                return True
         key = (a.get_id(), b)
         hit = _EQ_CACHE.get(key)
         if hit is None:
@@ -755,6 +799,9 @@ class SStr(str):
         return sym_format(self, a, k)
 
     def encode(self, *a, **k):
+        from symx import symops
+        if symops.ENCODE_HOOK[0] is not None:
+            return symops.ENCODE_HOOK[0](self)
         raise Inconclusive("encode() of a symbolic string")
 
     def translate(self, table):
@@ -795,7 +842,9 @@ def fresh_char(en, name, alphabet=None):
         rs = _ranges(map(ord, alphabet))
     else:
         rs = alphabet
-    en.solver.add(in_ranges(v, tuple(rs)))
+    rs = tuple(tuple(r) for r in rs)
+    en.solver.add(in_ranges(v, rs))
+    getattr(en, "en", en)._dom[v.get_id()] = rs
     return v
 
 
